@@ -229,7 +229,8 @@ def run(cases):
             if cur is None or cur.get("done"):
                 cur = next(it); cur.update({"base": [], "rows": [], "restart": {}, "restartafter": {}, "memrows": [], "done": False})
             b = {"i": int(t[1]), "ticks": int(t[2]), "kind": t[3], "labels": kv(line, "labels"), "cmd": kv(line, "cmd"),
-                 "result": line.split(" => ")[1].split()[0], "pre": kv(line, "pre"), "post": kv(line, "post")}
+                 "result": line.split(" => ")[1].split()[0], "pre": kv(line, "pre"), "post": kv(line, "post"),
+                 "tabspre": kv(line, "tabspre"), "tabspost": kv(line, "tabspost")}
             b["callkind"] = call_kind(b["cmd"], b["result"], b["labels"])
             cur["base"].append(b)
         elif t[0] == "basefinal":
@@ -241,10 +242,12 @@ def run(cases):
         elif t[0] == "crash":
             cur["rows"].append({"i": int(t[1]), "k": int(t[2]), "label": kv(line, "label"), "kind": kv(line, "kind"), "loads": kv(line, "loads"),
                                 "state": kv(line, "state"), "mid": kv(line, "mid"), "retry": kv(line, "retry"), "later": kv(line, "later"),
-                                "final": kv(line, "final"), "obs": kv(line, "obs"), "end": kv(line, "end"), "panicked": kv(line, "panicked")})
+                                "final": kv(line, "final"), "obs": kv(line, "obs"), "end": kv(line, "end"), "panicked": kv(line, "panicked"),
+                                "tabs": kv(line, "tabs")})
         elif t[0] == "crashmem":
             cur["memrows"].append({"i": int(t[1]), "k": int(t[2]), "label": kv(line, "label"), "loads": kv(line, "loads"), "pre": kv(line, "pre"),
-                                   "mid": kv(line, "mid"), "retry": kv(line, "retry"), "end": kv(line, "end"), "agree": kv(line, "agree")})
+                                   "mid": kv(line, "mid"), "retry": kv(line, "retry"), "end": kv(line, "end"), "agree": kv(line, "agree"),
+                                   "tabs": kv(line, "tabs"), "tabspre": kv(line, "tabspre")})
         elif t[0] == "end":
             cur["done"] = True
     for c in cases:
